@@ -325,6 +325,7 @@ def run(ctx, rep_):
     void_is_not_an_element(F, rep_)
     self_type_is_its_class(F, rep_)
     open_coercion_compares_with_the_result(F, rep_)
+    strings_have_no_slots(F, rep_)
     # a variable a function reads is captured: a dependency is compared with the supplies before its capture depth is raised (shared with C07)
     from props import _netdeps
     _netdeps.run(F, rep_, "C02.net-dependencies")
@@ -912,3 +913,58 @@ def open_coercion_compares_with_the_result(F, rep, rule="C02.coerce-open"):
            ("both operands of the eq_complex call at %s come from the closure's own item: the types are compared pairwise along the list, and compatibility is not "
             "transitive (`const xs = [a, nil, b]` with a: int?, b: str? reads as [int?...])" % bad[0].span) if bad else "", bad[0].span if bad else f.span, fn=f.path,
            key=rule + "|against-result")
+
+
+def strings_have_no_slots(F, rep, rule="C02.str-slot"):
+    """`xs[i] = v` and `xs[i] op= v` write through the view that indexing a list or a map leaves on the operand stack (ptr_mut, bin_op_assign
+    without a name: both fail on anything that is not a view).  Indexing a *string* yields a new one-character string, a value: there is nothing
+    to write to, so the two parser sites that accept an index step as an assignment target have to refuse a `str` receiver.  Per site: a
+    discriminant test of a NativeType against Str on a value that comes from the receiver's type, whose Str edge reaches no acceptance."""
+    NT = "compiler::ast::r#type::NativeType"
+    nt = F.adt(NT)
+    if nt is None:
+        raise AnchorMissing(NT)
+    str_i = str([v["name"] for v in nt["variants"]].index("Str"))
+
+    def str_tests(g):
+        out = []
+        for bb, blk in enumerate(g.blocks):
+            t = blk["t"]
+            if t["k"] != "switch" or str_i not in dict(t["targets"]):
+                continue
+            dl = op_local(t["discr"])
+            for s_ in blk["s"]:
+                if "d" in s_ and s_["d"]["l"] == dl and "discr" in s_["rv"]:
+                    pl = s_["rv"]["discr"]
+                    # the place whose discriminant is read is a NativeType (the payload of a TypeLayout::Native)
+                    fields = [e for e in pl.get("p", []) if e[0] == "field"]
+                    pty = fields[-1][3] if fields and len(fields[-1]) > 3 else g.locals[pl["l"]]
+                    if "NativeType" in pty and "TypeLayout" not in pty.replace("NativeType", ""):
+                        out.append((bb, dict(t["targets"])[str_i]))
+        return out
+    sites = []
+    pp = F.fn("compiler::ast::reassignment::parse_path")
+    if pp is None:
+        raise AnchorMissing("reassignment::parse_path")
+    for g in [pp] + F.closures_of(pp):
+        li = g.calls_to("compiler::parser::Parser::list_index")
+        if li:
+            tests = str_tests(g)
+            good = [t for t in tests if not any(c.bb in g.reachable(t[1]) for c in li)]
+            sites.append(("`s[i] = v`", g, bool(good), li[0].span))
+    ft = F.fn("compiler::ast::math_expr::Expr::for_type")
+    if ft is None:
+        raise AnchorMissing("Expr::for_type")
+    isop = ft.calls_to("compiler::ast::math_expr::Op::is_op_assign")
+    region = set()
+    for c in isop:
+        region |= ft.reachable(c.bb)
+    gots = ft.calls_to("compiler::ast::r#type::TypeLayout::get_output_type")
+    tests = [t for t in str_tests(ft) if t[0] in region]
+    good = [t for t in tests if not any(c.bb in ft.reachable(t[1]) for c in gots)]
+    sites.append(("`s[i] op= v`", ft, bool(good), ft.span))
+    rep.floor(rule + " index-write sites", len(sites), 2)
+    for label, g, ok, where in sites:
+        rep.ob(rule, "%s is refused when s is a str (a string has no slots to write through)" % label, "ok" if ok else "violated",
+               "" if ok else "no test of the receiver's type against str on the way to accepting the target: the program compiles and ptr_mut / bin_op_assign fail at run time "
+               "(`expected a mutable heap primitive`)", where, fn=g.path, key="%s|%s" % (rule, "assign" if "op=" not in label else "op-assign"))
